@@ -307,6 +307,9 @@ func c09Run(f []string) string {
 	if a, ok := c09R4Run(f); ok {
 		return a
 	}
+	if a, ok := c09R4bRun(f); ok {
+		return a
+	}
 	return "bad-op"
 }
 
@@ -809,6 +812,8 @@ func c09Gen(r *Rand, tier string) []string {
 	out = append(out, c09FragCases(r, tier)...)
 	// round 4: recording context (which look-up, which index) and errors.go as the user sees it
 	out = append(out, c09R4Gen(r, tier)...)
+	// round 4b: the exact list of syntax errors (kind, index, text, order) against the declarative `synErrs`
+	out = append(out, c09R4bGen(r, tier)...)
 	return out
 }
 
@@ -830,6 +835,20 @@ func c09Stats(cases []string) map[string]int {
 			t := string(UnHex(f[2]))
 			if strings.Count(t, "{") != strings.Count(t, "}") {
 				st["cerr.unbalancedBraces"]++
+			}
+		case "serr":
+			t := string(UnHex(f[2]))
+			if d := c09MaxDepth(t); d >= 2 {
+				st["serr.nested"]++
+			}
+			if strings.Count(t, "{") != strings.Count(t, "}") {
+				st["serr.unbalancedBraces"]++
+			}
+			if strings.Contains(t, "\\") {
+				st["serr.hasBackslash"]++
+			}
+			if strings.Count(t, "{}")+strings.Count(t, "nofn") >= 2 {
+				st["serr.severalDefects"]++
 			}
 		case "tpl":
 			t := string(UnHex(f[2]))
